@@ -68,8 +68,25 @@ def kill_campaigns(ctx):
             p.wait()
 
 
+def _ensure_atheris():
+    """atheris lives in VERIF/.deps (installed by MANIFEST.setup_cmd from the offline wheelhouse);
+    install it on demand if the directory is missing (e.g. a fresh snapshot of /verif)"""
+    def have():
+        e = dict(os.environ)
+        e['PYTHONPATH'] = env.DEPS + os.pathsep + e.get('PYTHONPATH', '')
+        return subprocess.run([env.PY, '-c', 'import atheris'], env=e, capture_output=True).returncode == 0
+    if have():
+        return True
+    subprocess.run([env.PY, '-m', 'pip', 'install', '--no-index', '--find-links', '/opt/veriftools/wheels',
+                    '--target', env.DEPS, '--no-deps', 'atheris'], capture_output=True)
+    return have()
+
+
 def start_campaigns(ctx, mod):
     na, ta, nn, tn = BUDGET[ctx.tier]
+    if not _ensure_atheris():
+        na = 0
+        ctx.extra['atheris_leg'] = 'skipped: atheris is not importable and could not be installed from the wheelhouse'
     tmp = ctx.tmp
     out = os.path.join(tmp, 'c30-out')
     os.makedirs(out, exist_ok=True)
@@ -96,6 +113,8 @@ def start_campaigns(ctx, mod):
     known = [t for t in ctx.known]
     from . import build
     cenv = dict(os.environ)
+    if env.DEPS not in cenv.get('PYTHONPATH', ''):
+        cenv['PYTHONPATH'] = cenv.get('PYTHONPATH', '') + os.pathsep + env.DEPS
     cenv['C30_KNOWN'] = json.dumps(known)
     cenv['C30_OUT'] = out
     for i in range(na):
